@@ -28,16 +28,18 @@ macro_rules! mutvec_body {
         {
             set_budget(1);
             let Ok(mut bump) = Bump::<VA, St>::try_new() else { return };
+    // never run Drop for Bump on early-return paths (it walks the chunk list and calls the base allocator: pure cost)
+    let mut bump = core::mem::ManuallyDrop::new(bump);
             set_budget(0);
             if FILL > 0 {
                 let Ok(_) = bump.allocate(Layout::from_size_align(FILL, 1).unwrap()) else { return };
             }
-            let pos1 = chunk1_pos(&bump);
+            let pos1 = chunk1_pos(&*bump);
             let alloc0 = bump.stats().allocated();
             let chunk_cur0 = addr(bump.stats().current_chunk().unwrap().chunk_start());
             let vals: [T; 5] = kani::any();
             set_budget(create_budget);
-            let Ok(mut v) = $Vec::<T, _>::try_with_capacity_in(CAP0, &mut bump) else { return };
+            let Ok(mut v) = $Vec::<T, _>::try_with_capacity_in(CAP0, &mut *bump) else { return };
             set_budget(0);
             assert!(v.capacity() >= CAP0, "C08: capacity smaller than what with_capacity promised");
             let mut k = 0;
@@ -99,7 +101,7 @@ macro_rules! mutvec_body {
                 assert!(p >= cs && p + K * sz <= ce, "C15/C01: finalised slice outside the current chunk");
             } else {
                 drop(v);
-                assert!(chunk1_pos(&bump) == pos1, "C15: dropping an exclusive-borrow collection moved the bump position");
+                assert!(chunk1_pos(&*bump) == pos1, "C15: dropping an exclusive-borrow collection moved the bump position");
                 let cur = bump.stats().current_chunk().unwrap();
                 if addr(cur.chunk_start()) != chunk_cur0 {
                     assert!(cur.allocated() == 0, "C15: after dropping the collection the current chunk is a later one that is not empty");
@@ -107,8 +109,7 @@ macro_rules! mutvec_body {
                     assert!(bump.stats().allocated() == alloc0, "C15: dropping the collection changed the allocated byte count");
                 }
             }
-            core::mem::forget(bump);
-            kani::cover!(true, "END: harness ran to completion");
+                    kani::cover!(true, "END: harness ran to completion");
         }
     };
 }
